@@ -154,6 +154,8 @@ func directPart(v ssa.Value, node ssa.Value, depth int) string {
 		return directPart(x.X, node, depth+1)
 	case *ssa.Index:
 		return directPart(x.X, node, depth+1)
+	case *ssa.Lookup:
+		return directPart(x.X, node, depth+1)
 	case *ssa.Extract:
 		if ta, ok := x.Tuple.(*ssa.TypeAssert); ok && x.Index == 0 {
 			if ta.X == node {
@@ -1529,4 +1531,908 @@ func ruleJoinShape(p *Program, r *Reporter) {
 	} else {
 		r.OkNT(keyB, p.Pos(fn.Pos()), fmt.Sprintf("%d separator concatenations, guarded by index/length tests only", len(sepAdds)))
 	}
+}
+
+// ---------------------------------------------------------------------------
+// R-FOLDARITY
+
+func init() {
+	register(&Rule{ID: "R-FOLDARITY", Floor: 10, Run: ruleFoldArity,
+		Text: "Inside the constant folder every write into the bytecode is made only when as many pending constants are known as the operator has operands (two for the binary operators and comparisons, one for √): a rewrite that fires with fewer constants replaces an operation whose other operand is an arbitrary run-time value — of any type — by something that no longer checks or computes it."})
+}
+
+func ruleFoldArity(p *Program, r *Reporter) {
+	a := needAnchors(p, r)
+	if a == nil {
+		return
+	}
+	// the fold pass: the walker callback that appends to a captured list in its OpPush case
+	var fold *ssa.Function
+	for _, fn := range p.LibFns {
+		if fn.Parent() == nil || !isWalkerCallback(fn) || fnPkg(fn).Pkg.Path() != Mod+"/vm" {
+			continue
+		}
+		for _, b := range fn.Blocks {
+			for _, ins := range b.Instrs {
+				if st, ok := ins.(*ssa.Store); ok {
+					if _, isFree := st.Addr.(*ssa.FreeVar); isFree {
+						if _, isApp := isBuiltinCall(st.Val, "append"); isApp && strings.Contains(outerCase(p, fn, st.Pos()), "OpPush") {
+							fold = fn
+						}
+					}
+				}
+			}
+		}
+	}
+	if fold == nil {
+		r.Undecided("constant folder", "-", "cannot find the walker callback that collects constant pushes")
+		return
+	}
+	// the pending list: the captured variable appended to
+	var list *ssa.FreeVar
+	for _, b := range fold.Blocks {
+		for _, ins := range b.Instrs {
+			if st, ok := ins.(*ssa.Store); ok {
+				if fv, isFree := st.Addr.(*ssa.FreeVar); isFree {
+					if _, isApp := isBuiltinCall(st.Val, "append"); isApp {
+						list = fv
+					}
+				}
+			}
+		}
+	}
+	nth := map[string]int{}
+	for _, b := range fold.Blocks {
+		for _, ins := range b.Instrs {
+			st, ok := ins.(*ssa.Store)
+			if !ok {
+				continue
+			}
+			ia, ok := st.Addr.(*ssa.IndexAddr)
+			if !ok {
+				continue
+			}
+			ld, ok := ia.X.(*ssa.UnOp)
+			if !ok || !isByteSlice(ld.Type()) {
+				continue
+			}
+			if _, isField := ld.X.(*ssa.FieldAddr); !isField {
+				continue
+			}
+			label := outerCase(p, fold, st.Pos())
+			need := int64(2)
+			if strings.Contains(label, "OpSquareRoot") {
+				need = 1
+			}
+			nth[label]++
+			key := fmt.Sprintf("%s/%s/bytecode write %d needs %d pending constant(s)", p.FnName(fold), label, nth[label], need)
+			// a dominating test len(list) >= need (or > need-1) on its true edge
+			good := false
+			for cur := b; cur.Idom() != nil && !good; cur = cur.Idom() {
+				d := cur.Idom()
+				iff, ok := terminator(d).(*ssa.If)
+				if !ok {
+					continue
+				}
+				onTrue := (d.Succs[0] == b || d.Succs[0].Dominates(b)) && len(d.Succs[0].Preds) == 1
+				bo, ok := iff.Cond.(*ssa.BinOp)
+				if !ok || !onTrue {
+					continue
+				}
+				lc, isLen := isBuiltinCall(bo.X, "len")
+				if !isLen {
+					continue
+				}
+				if l2, ok := lc.Call.Args[0].(*ssa.UnOp); !ok || l2.X != ssa.Value(list) {
+					continue
+				}
+				k, kok := constInt(bo.Y)
+				if !kok {
+					continue
+				}
+				switch bo.Op {
+				case token.GEQ:
+					good = k >= need
+				case token.GTR:
+					good = k >= need-1
+				case token.EQL:
+					good = k >= need
+				}
+			}
+			r.Check(good, key, p.Pos(st.Pos()), "dominated by a test for enough pending constants", fmt.Sprintf("the folder rewrites the program here although fewer than %d constant operand(s) are known to precede the operator: the other operand is whatever the script computes at run time, so `Name + 0` or `Missing * 1` — a type error unoptimized — silently yields its operand when optimized", need))
+		}
+	}
+}
+
+// ---------------------------------------------------------------------------
+// R-VISITALL
+
+func init() {
+	register(&Rule{ID: "R-VISITALL", Floor: 5, Run: ruleVisitAll,
+		Text: "A loop in the compiler over the children of a syntax node (statements of a block, elements, arguments, arms, pairs) is left early only with an error: every child is visited, so the compiler's own checks (assignment to a non-variable, unknown node types) apply to every part of an accepted script and no part is silently dropped."})
+	register(&Rule{ID: "R-ONEDEFAULT", Floor: 1, Run: ruleOneDefault,
+		Text: "The switch parser cannot return a switch with two default arms: either the default arms are counted after all arms are parsed and more than one is an error, or every path that creates a second default arm leads to an error (explored over the flag values the parser keeps)."})
+}
+
+func ruleVisitAll(p *Program, r *Reporter) {
+	a := needAnchors(p, r)
+	if a == nil {
+		return
+	}
+	var fns []*ssa.Function
+	for f := range p.Reachable(a.compile) {
+		if fnPkg(f) != nil && fnPkg(f).Pkg.Path() == Mod && f.Parent() == nil {
+			fns = append(fns, f)
+		}
+	}
+	sort.Slice(fns, func(i, j int) bool { return p.FnName(fns[i]) < p.FnName(fns[j]) })
+	for _, fn := range fns {
+		nth := map[string]int{}
+		for _, h := range fn.Blocks {
+			var backs []*ssa.BasicBlock
+			for _, pd := range h.Preds {
+				if h.Dominates(pd) {
+					backs = append(backs, pd)
+				}
+			}
+			if len(backs) == 0 {
+				continue
+			}
+			// loop body
+			inLoop := map[*ssa.BasicBlock]bool{h: true}
+			work := append([]*ssa.BasicBlock{}, backs...)
+			for _, b := range backs {
+				inLoop[b] = true
+			}
+			for len(work) > 0 {
+				b := work[len(work)-1]
+				work = work[:len(work)-1]
+				for _, pd := range b.Preds {
+					if !inLoop[pd] && h.Dominates(pd) {
+						inLoop[pd] = true
+						work = append(work, pd)
+					}
+				}
+			}
+			// only loops that compile something of AST type
+			compiles := false
+			for b := range inLoop {
+				for _, ins := range b.Instrs {
+					if c, ok := ins.(*ssa.Call); ok && c.Call.StaticCallee() != nil && p.Reachable(c.Call.StaticCallee())[a.compile] && len(c.Call.Args) >= 2 && isASTish(c.Call.Args[1].Type()) {
+						compiles = true
+					}
+				}
+			}
+			if !compiles {
+				continue
+			}
+			label := outerCase(p, fn, firstPos(h))
+			nth[label]++
+			key := fmt.Sprintf("%s/%s/loop %d over the node's children visits every child", p.FnName(fn), label, nth[label])
+			bad := token.NoPos
+			for b := range inLoop {
+				for _, s := range b.Succs {
+					if inLoop[s] {
+						continue
+					}
+					if b == h {
+						continue // exhaustion
+					}
+					if allReturnsFail(s) {
+						continue
+					}
+					bad = firstPos(s)
+					if !bad.IsValid() {
+						bad = firstPos(b)
+					}
+				}
+			}
+			r.Check(!bad.IsValid(), key, p.Pos(firstPos(h)), "left only by exhaustion or with an error", "this loop over the children of a syntax node can be left early without an error (a break, or a return of nil): the remaining children are never translated — nor checked — so an invalid fragment after that point (`return 1; 3 += 1;` inside a block) is accepted by Prepare and silently dropped")
+			_ = bad
+		}
+	}
+}
+
+func isASTish(t types.Type) bool {
+	n, ok := types.Unalias(deref(t)).(*types.Named)
+	return ok && n.Obj().Pkg() != nil && n.Obj().Pkg().Path() == Mod+"/ast"
+}
+
+func ruleOneDefault(p *Program, r *Reporter) {
+	// the function that creates default arms: stores true into a bool field of an ast struct
+	// named by its role: a field of the arm type that the compiler tests to find the default
+	var fn *ssa.Function
+	var defStores []*ssa.Store
+	var fieldIdx int
+	var armType types.Type
+	for _, f := range parserFns(p) {
+		for _, b := range f.Blocks {
+			for _, ins := range b.Instrs {
+				st, ok := ins.(*ssa.Store)
+				if !ok {
+					continue
+				}
+				c, isC := st.Val.(*ssa.Const)
+				fa, isF := st.Addr.(*ssa.FieldAddr)
+				if !isC || !isF || c.Value == nil || c.Value.Kind() != constant.Bool || !constant.BoolVal(c.Value) {
+					continue
+				}
+				if !isASTish(fa.X.Type()) {
+					continue
+				}
+				fn = f
+				defStores = append(defStores, st)
+				fieldIdx = fa.Field
+				armType = deref(fa.X.Type())
+			}
+		}
+	}
+	key := "a switch has at most one default arm"
+	if fn == nil {
+		r.Undecided(key, "-", "no parser function marks an arm as the default")
+		return
+	}
+	// design A: counted after the loop
+	for _, b := range fn.Blocks {
+		iff, ok := terminator(b).(*ssa.If)
+		if !ok {
+			continue
+		}
+		bo, ok := iff.Cond.(*ssa.BinOp)
+		if !ok {
+			continue
+		}
+		k, kok := constInt(bo.Y)
+		if !kok || !((bo.Op == token.GTR && k == 1) || (bo.Op == token.GEQ && k == 2)) {
+			continue
+		}
+		ph, ok := bo.X.(*ssa.Phi)
+		if !ok || !countsField(ph, armType, fieldIdx) {
+			continue
+		}
+		if !allReturnsNil(b.Succs[0]) {
+			continue
+		}
+		// the test is on every path to a successful return
+		dom := true
+		for _, rb := range fn.Blocks {
+			if ret, ok := terminator(rb).(*ssa.Return); ok && len(ret.Results) == 1 && !isNilConst(ret.Results[0]) {
+				if !(b == rb || b.Dominates(rb)) {
+					dom = false
+				}
+			}
+		}
+		if dom {
+			r.OkNT(key, p.Pos(iff.Cond.Pos()), "default arms are counted after the loop; more than one is an error on every path to a successful return")
+			return
+		}
+	}
+	// design B: explore the paths with the boolean flags the function keeps
+	if path := secondDefaultReachable(fn, defStores); path != "" {
+		r.Fail(key, p.Pos(defStores[0].Pos()), "there is a path through the switch parser that marks a second arm as the default and still returns the switch ("+path+"): `switch (x) { case default {..} default {..} }` is accepted by Prepare and both default blocks are compiled")
+		return
+	}
+	r.OkNT(key, p.Pos(fn.Pos()), fmt.Sprintf("no path creates a second default arm without an error (%d marking site(s), explored with the parser's boolean flags)", len(defStores)))
+}
+
+// countsField: the phi is a counter incremented under a test of the given field.
+func countsField(ph *ssa.Phi, arm types.Type, field int) bool {
+	for _, e := range ph.Edges {
+		// through the inner merge phi of `if c.Default { count++ }`
+		for _, o := range originsThroughPhi(e, 3) {
+			bo, ok := o.(*ssa.BinOp)
+			if !ok || bo.Op != token.ADD {
+				continue
+			}
+			if k, ok := constInt(bo.Y); !ok || k != 1 {
+				continue
+			}
+			// the increment's block is guarded by a load of the field
+			for cur := bo.Block(); cur.Idom() != nil; cur = cur.Idom() {
+				d := cur.Idom()
+				iff, ok := terminator(d).(*ssa.If)
+				if !ok {
+					continue
+				}
+				if ld, ok := iff.Cond.(*ssa.UnOp); ok && ld.Op == token.MUL {
+					if fa, ok := ld.X.(*ssa.FieldAddr); ok && fa.Field == field && types.Identical(deref(fa.X.Type()), arm) {
+						return true
+					}
+				}
+			}
+		}
+	}
+	return false
+}
+
+func originsThroughPhi(v ssa.Value, depth int) []ssa.Value {
+	if depth == 0 {
+		return []ssa.Value{v}
+	}
+	if ph, ok := v.(*ssa.Phi); ok {
+		var out []ssa.Value
+		for _, e := range ph.Edges {
+			out = append(out, originsThroughPhi(e, depth-1)...)
+		}
+		return out
+	}
+	return []ssa.Value{v}
+}
+
+// secondDefaultReachable explores (block, number of default arms created, values
+// of the boolean phis) and reports a path on which a second arm is marked as
+// the default and a non-nil result is still returned.
+func secondDefaultReachable(fn *ssa.Function, marks []*ssa.Store) string {
+	isMark := map[ssa.Instruction]bool{}
+	for _, m := range marks {
+		isMark[m] = true
+	}
+	type state struct {
+		b    *ssa.BasicBlock
+		seen int
+		env  string
+	}
+	var boolPhis []*ssa.Phi
+	for _, b := range fn.Blocks {
+		for _, ins := range b.Instrs {
+			if ph, ok := ins.(*ssa.Phi); ok && isBoolType(ph.Type()) {
+				boolPhis = append(boolPhis, ph)
+			}
+		}
+	}
+	idx := map[*ssa.Phi]int{}
+	for i, ph := range boolPhis {
+		idx[ph] = i
+	}
+	val := func(env []byte, v ssa.Value) byte {
+		switch x := v.(type) {
+		case *ssa.Const:
+			if x.Value != nil && x.Value.Kind() == constant.Bool {
+				if constant.BoolVal(x.Value) {
+					return 'T'
+				}
+				return 'F'
+			}
+		case *ssa.Phi:
+			if i, ok := idx[x]; ok {
+				return env[i]
+			}
+		}
+		return '?'
+	}
+	start := make([]byte, len(boolPhis))
+	for i := range start {
+		start[i] = '?'
+	}
+	seenStates := map[state]bool{}
+	type item struct {
+		b    *ssa.BasicBlock
+		from *ssa.BasicBlock
+		seen int
+		env  []byte
+	}
+	work := []item{{fn.Blocks[0], nil, 0, start}}
+	for len(work) > 0 {
+		it := work[len(work)-1]
+		work = work[:len(work)-1]
+		env := append([]byte{}, it.env...)
+		// phis take the value of the incoming edge (evaluated simultaneously)
+		if it.from != nil {
+			old := append([]byte{}, env...)
+			for _, ins := range it.b.Instrs {
+				ph, ok := ins.(*ssa.Phi)
+				if !ok {
+					break
+				}
+				if i, ok := idx[ph]; ok {
+					for k, pd := range it.b.Preds {
+						if pd == it.from {
+							env[i] = val(old, ph.Edges[k])
+						}
+					}
+				}
+			}
+		}
+		st := state{it.b, it.seen, string(env)}
+		if seenStates[st] {
+			continue
+		}
+		seenStates[st] = true
+		seen := it.seen
+		for _, ins := range it.b.Instrs {
+			if isMark[ins] {
+				seen++
+				if seen > 2 {
+					seen = 2
+				}
+			}
+		}
+		switch t := terminator(it.b).(type) {
+		case *ssa.Return:
+			if seen >= 2 && len(t.Results) == 1 && !isNilConst(t.Results[0]) {
+				return fmt.Sprintf("two default arms on a path to the return in block %d", it.b.Index)
+			}
+		case *ssa.If:
+			v := val(env, t.Cond)
+			if v != 'F' {
+				work = append(work, item{it.b.Succs[0], it.b, seen, env})
+			}
+			if v != 'T' {
+				work = append(work, item{it.b.Succs[1], it.b, seen, env})
+			}
+		default:
+			for _, s := range it.b.Succs {
+				work = append(work, item{s, it.b, seen, env})
+			}
+		}
+	}
+	return ""
+}
+
+// allReturnsNil: every return reachable from b returns the nil constant (the
+// parser's way of failing), and one is reachable.
+func allReturnsNil(b *ssa.BasicBlock) bool {
+	seen := map[*ssa.BasicBlock]bool{}
+	n, ok := 0, true
+	var w func(x *ssa.BasicBlock)
+	w = func(x *ssa.BasicBlock) {
+		if seen[x] {
+			return
+		}
+		seen[x] = true
+		if ret, isRet := terminator(x).(*ssa.Return); isRet {
+			n++
+			if len(ret.Results) != 1 || !isNilConst(returnOperand(ret, 0)) {
+				ok = false
+			}
+		}
+		for _, s := range x.Succs {
+			w(s)
+		}
+	}
+	w(b)
+	return ok && n > 0
+}
+
+// ---------------------------------------------------------------------------
+// R-LEXINPUT
+
+func init() {
+	register(&Rule{ID: "R-LEXINPUT", Floor: 1, Run: ruleLexInput,
+		Text: "The lexer's character buffer is the script text itself: it is assigned only the []rune conversion of the constructor's parameter, with no normalisation, replacement or trimming in between — text inside string and regexp literals reaches the token unchanged."})
+}
+
+func ruleLexInput(p *Program, r *Reporter) {
+	n := 0
+	for _, fn := range lexerFns(p) {
+		for _, b := range fn.Blocks {
+			for _, ins := range b.Instrs {
+				st, ok := ins.(*ssa.Store)
+				if !ok {
+					continue
+				}
+				sl, ok := st.Val.Type().Underlying().(*types.Slice)
+				if !ok || !types.Identical(sl.Elem(), types.Typ[types.Rune]) {
+					continue
+				}
+				if owner, _, ok := fieldOf(st.Addr); !ok || owner == nil || owner.Obj().Name() != "Lexer" {
+					continue
+				}
+				n++
+				key := p.FnName(fn) + "/the character buffer is the script text, unmodified"
+				cv, ok := st.Val.(*ssa.Convert)
+				if !ok {
+					r.Fail(key, p.Pos(st.Pos()), "the character buffer is not a direct conversion of the script text")
+					continue
+				}
+				if _, isParam := cv.X.(*ssa.Parameter); isParam {
+					r.OkNT(key, p.Pos(st.Pos()), "[]rune(parameter)")
+					continue
+				}
+				what := "a computed value"
+				if c, ok := cv.X.(*ssa.Call); ok && c.Call.StaticCallee() != nil {
+					what = "the result of " + calleeFullName(&c.Call)
+				}
+				r.Fail(key, p.Pos(st.Pos()), "the text handed to the lexer is "+what+", not the script as given: a transformation applied before tokenising also rewrites the inside of string and regexp literals (normalising CR LF to LF turns \"a\\r\\nb\" written with a raw line break into \"a\\nb\" and makes backslash-CR a line continuation)")
+			}
+		}
+	}
+	if n == 0 {
+		r.Undecided("character buffer", "-", "no lexer function stores a []rune into the Lexer")
+	}
+}
+
+// ---------------------------------------------------------------------------
+// R-COUNTED
+
+func init() {
+	register(&Rule{ID: "R-COUNTED", Floor: 3, Run: ruleCounted,
+		Text: "The count operand of an instruction that pops a counted number of operands (array, hash, call) is len(F)·k for the node field F whose loop, in the same compiler case, compiles exactly k children in every iteration without skipping any: as many operands are pushed as the instruction will pop."})
+}
+
+func ruleCounted(p *Program, r *Reporter) {
+	a := needAnchors(p, r)
+	if a == nil {
+		return
+	}
+	fn := a.compile
+	oc := p.Opcodes()
+	// loops of compile, by the field they range over
+	type loopInfo struct {
+		h       *ssa.BasicBlock
+		field   string
+		perIter int // compile calls that dominate every back edge
+		skips   bool
+	}
+	var loops []loopInfo
+	for _, h := range fn.Blocks {
+		var backs []*ssa.BasicBlock
+		for _, pd := range h.Preds {
+			if h.Dominates(pd) {
+				backs = append(backs, pd)
+			}
+		}
+		if len(backs) == 0 {
+			continue
+		}
+		// the collection: header compares index < len(X); X = load of a field of the node
+		iff, ok := terminator(h).(*ssa.If)
+		if !ok {
+			continue
+		}
+		bo, ok := iff.Cond.(*ssa.BinOp)
+		if !ok {
+			continue
+		}
+		lc, ok := isBuiltinCall(bo.Y, "len")
+		if !ok {
+			continue
+		}
+		fld := fieldKey(loadAddr(lc.Call.Args[0]))
+		if fld == "" {
+			continue
+		}
+		inLoop := map[*ssa.BasicBlock]bool{h: true}
+		work := append([]*ssa.BasicBlock{}, backs...)
+		for _, b := range backs {
+			inLoop[b] = true
+		}
+		for len(work) > 0 {
+			b := work[len(work)-1]
+			work = work[:len(work)-1]
+			for _, pd := range b.Preds {
+				if !inLoop[pd] && h.Dominates(pd) {
+					inLoop[pd] = true
+					work = append(work, pd)
+				}
+			}
+		}
+		li := loopInfo{h: h, field: fld}
+		total := 0
+		for b := range inLoop {
+			for _, ins := range b.Instrs {
+				if c, ok := staticCalleeIs(ins, fn); ok {
+					total++
+					all := true
+					for _, bk := range backs {
+						if !(c.Block() == bk || c.Block().Dominates(bk)) {
+							all = false
+						}
+					}
+					if all {
+						li.perIter++
+					}
+				}
+			}
+		}
+		li.skips = total != li.perIter
+		loops = append(loops, li)
+	}
+	n := 0
+	for _, b := range fn.Blocks {
+		for _, ins := range b.Instrs {
+			c, ok := staticCalleeIs(ins, a.emit)
+			if !ok || len(c.Call.Args) < 3 {
+				continue
+			}
+			vals, known := varargsOf(c.Call.Args[2])
+			if !known || len(vals) != 1 {
+				continue
+			}
+			// operand = len(F) or len(F)*k
+			k := int64(1)
+			v := vals[0]
+			if bo, ok := v.(*ssa.BinOp); ok && bo.Op == token.MUL {
+				if kk, ok := constInt(bo.Y); ok {
+					k, v = kk, bo.X
+				}
+			}
+			lc, ok := isBuiltinCall(v, "len")
+			if !ok {
+				continue
+			}
+			fld := fieldKey(loadAddr(lc.Call.Args[0]))
+			if !strings.HasPrefix(fld, "ast.") {
+				continue // a jump target (len of the code so far), not a count of children
+			}
+			n++
+			clause := outerCase(p, fn, c.Pos())
+			key := fmt.Sprintf("compile/%s/count operand of %s equals the operands pushed", clause, oc.ssaName(c.Call.Args[1]))
+			var match *loopInfo
+			for i := range loops {
+				if loops[i].field == fld && outerCase(p, fn, firstPos(loops[i].h)) == clause {
+					match = &loops[i]
+				}
+			}
+			switch {
+			case match == nil:
+				r.Fail(key, p.Pos(c.Pos()), "the count is len("+fld+") but no loop in this case compiles the members of that field: operands pushed and operands popped are counted over different things")
+			case match.skips:
+				r.Fail(key, p.Pos(c.Pos()), "the count is taken from len("+fld+"), but the loop that compiles its members skips some of them (a compile call that does not run in every iteration): the instruction pops more operands than were pushed — `{\"a\": 1, \"a\": 2}` ends in a stack underflow or swallows the operands of the surrounding expression")
+			case int64(match.perIter) != k:
+				r.Fail(key, p.Pos(c.Pos()), fmt.Sprintf("each iteration compiles %d child(ren) but the count is len(%s)·%d", match.perIter, fld, k))
+			default:
+				r.OkNT(key, p.Pos(c.Pos()), fmt.Sprintf("len(%s)·%d; the loop compiles %d per iteration, none skipped", fld, k, k))
+			}
+		}
+	}
+	if n == 0 {
+		r.Undecided("counted instructions", p.Pos(fn.Pos()), "no emit site takes its operand from the length of a node field")
+	}
+}
+
+// loadAddr: the address a value was loaded from (through a once-assigned local).
+func loadAddr(v ssa.Value) ssa.Value {
+	if u, ok := v.(*ssa.UnOp); ok && u.Op == token.MUL {
+		return u.X
+	}
+	return v
+}
+
+// ---------------------------------------------------------------------------
+// R-MATCHONCE
+
+func init() {
+	register(&Rule{ID: "R-MATCHONCE", Floor: 1, Run: ruleMatchOnce,
+		Text: "The regexp matcher behind ~=, !~ and match() applies the pattern to the subject at least once for every subject, the empty string included: the lines it tries are the elements of strings.Split(subject, sep) — never empty — and the pattern is tried in every iteration. A loop that can run zero times answers 'no match' without asking the pattern, although /^$/ and /x*/ match the empty string."})
+}
+
+func ruleMatchOnce(p *Program, r *Reporter) {
+	fn := registeredBuiltins(p)["match"]
+	if fn == nil {
+		r.Undecided("match built-in", "-", "no function is registered under the name match")
+		return
+	}
+	key := p.FnName(fn) + "/the pattern is tried at least once for every subject"
+	isMatchCall := func(ins ssa.Instruction) bool {
+		cc := callOf(ins)
+		if cc == nil || cc.StaticCallee() == nil {
+			return false
+		}
+		full := calleeFullName(cc)
+		return strings.HasPrefix(full, "(*regexp.Regexp).Match") || strings.HasPrefix(full, "(*regexp.Regexp).Find")
+	}
+	var calls []ssa.Instruction
+	for _, b := range fn.Blocks {
+		for _, ins := range b.Instrs {
+			if isMatchCall(ins) {
+				calls = append(calls, ins)
+			}
+		}
+	}
+	if len(calls) == 0 {
+		r.Undecided(key, p.Pos(fn.Pos()), "the function does not call a regexp matching method")
+		return
+	}
+	for _, c := range calls {
+		b := c.Block()
+		// the loop around the call, if any
+		var header *ssa.BasicBlock
+		for h := b; h != nil; h = h.Idom() {
+			for _, pd := range h.Preds {
+				if h.Dominates(pd) && (pd == b || blockReaches(b, pd, nil)) {
+					header = h
+				}
+			}
+			if header != nil {
+				break
+			}
+		}
+		if header == nil {
+			// applied once to the whole subject: must be on every path to a result
+			// computed after the pattern is available — accept when it dominates
+			// the function's last return
+			r.OkNT(key, p.Pos(c.Pos()), "the pattern is applied outside any loop")
+			return
+		}
+		// every iteration tries the pattern
+		every := true
+		for _, pd := range header.Preds {
+			if header.Dominates(pd) && !(b == pd || b.Dominates(pd)) {
+				every = false
+			}
+		}
+		// the loop runs at least once: a range over strings.Split(x, non-empty constant)
+		atLeastOnce := false
+		if iff, ok := terminator(header).(*ssa.If); ok {
+			if bo, ok := iff.Cond.(*ssa.BinOp); ok && bo.Op == token.LSS {
+				if lc, ok := isBuiltinCall(bo.Y, "len"); ok {
+					if sp, ok := lc.Call.Args[0].(*ssa.Call); ok && sp.Call.StaticCallee() != nil {
+						full := calleeFullName(&sp.Call)
+						if full == "strings.Split" || full == "strings.SplitN" || full == "strings.SplitAfter" {
+							if k, ok := sp.Call.Args[1].(*ssa.Const); ok && k.Value != nil && k.Value.Kind() == constant.String && constant.StringVal(k.Value) != "" {
+								atLeastOnce = true
+							}
+						}
+					}
+				}
+			}
+		}
+		switch {
+		case !atLeastOnce:
+			r.Fail(key, p.Pos(firstPos(header)), "the loop in which the pattern is tried can run zero times (it is not a range over strings.Split of the subject with a non-empty separator, which always yields at least one element): for the empty subject — or after a trailing newline — the answer is 'no match' without the pattern having been asked, so `\"\" ~= /^$/` is false and `\"\" !~ /x*/` is true")
+		case !every:
+			r.Fail(key, p.Pos(c.Pos()), "some iteration of the line loop does not try the pattern")
+		default:
+			r.OkNT(key, p.Pos(c.Pos()), "range over strings.Split(subject, sep): at least one line, the pattern is tried on each")
+		}
+		return
+	}
+}
+
+// ---------------------------------------------------------------------------
+// R-EMITSET
+
+func init() {
+	register(&Rule{ID: "R-EMITSET", Floor: 20, Run: ruleEmitSet,
+		Text: "Instruction selection is a closed table: each compiler case emits only the opcodes the language's translation scheme gives that construct (BYTECODE.md; e.g. a switch compares with the case opcode, a loop tests its condition with the conditional jump alone). An opcode that is new for a construct — a membership test inside switch, a negation inside while — is reported as not decided: whether the new encoding means the same for values of every type is a question about the VM's semantics that this rule cannot answer."})
+}
+
+// specEmitSets: construct → opcodes its translation may use.
+var specEmitSets = map[string][]string{
+	"*ast.BooleanLiteral":     {"OpTrue", "OpFalse"},
+	"*ast.FloatLiteral":       {"OpConstant"},
+	"*ast.IntegerLiteral":     {"OpConstant", "OpPush"},
+	"*ast.StringLiteral":      {"OpConstant"},
+	"*ast.RegexpLiteral":      {"OpConstant"},
+	"*ast.ArrayLiteral":       {"OpArray"},
+	"*ast.HashLiteral":        {"OpHash"},
+	"*ast.ReturnStatement":    {"OpReturn"},
+	"*ast.InfixExpression":    {"OpAdd", "OpAnd", "OpArrayIn", "OpConstant", "OpDiv", "OpEqual", "OpGreater", "OpGreaterEqual", "OpIndex", "OpLess", "OpLessEqual", "OpMatches", "OpMod", "OpMul", "OpNotEqual", "OpNotMatches", "OpOr", "OpPower", "OpRange", "OpSet", "OpSub"},
+	"*ast.PrefixExpression":   {"OpBang", "OpMinus", "OpSquareRoot"},
+	"*ast.PostfixExpression":  {"OpDec", "OpInc"},
+	"*ast.LocalVariable":      {"OpConstant", "OpLocal"},
+	"*ast.ForeachStatement":   {"OpConstant", "OpIterationNext", "OpIterationReset", "OpJump", "OpJumpIfFalse", "OpPlaceholder"},
+	"*ast.FunctionDefinition": {"OpReturn", "OpVoid"},
+	"*ast.IfExpression":       {"OpJump", "OpJumpIfFalse", "OpPlaceholder"},
+	"*ast.TernaryExpression":  {"OpJump", "OpJumpIfFalse", "OpPlaceholder"},
+	"*ast.SwitchExpression":   {"OpCase", "OpJump", "OpJumpIfFalse", "OpPlaceholder"},
+	"*ast.WhileStatement":     {"OpJump", "OpJumpIfFalse", "OpPlaceholder"},
+	"*ast.AssignStatement":    {"OpConstant", "OpSet"},
+	"*ast.Identifier":         {"OpLookup"},
+	"*ast.CallExpression":     {"OpCall", "OpConstant"},
+	"*ast.IndexExpression":    {"OpIndex"},
+}
+
+func ruleEmitSet(p *Program, r *Reporter) {
+	a := needAnchors(p, r)
+	if a == nil {
+		return
+	}
+	oc := p.Opcodes()
+	got := map[string]map[string]token.Pos{}
+	for f := range p.Reachable(a.compile) {
+		if fnPkg(f) == nil || fnPkg(f).Pkg.Path() != Mod {
+			continue
+		}
+		for _, b := range f.Blocks {
+			for _, ins := range b.Instrs {
+				c, ok := staticCalleeIs(ins, a.emit)
+				if !ok || len(c.Call.Args) < 2 {
+					continue
+				}
+				name := oc.ssaName(c.Call.Args[1])
+				if name == "" {
+					continue // selected through a table: R-OPMAP's subject
+				}
+				label := "(helper " + f.Name() + ")"
+				if f == a.compile {
+					label = strings.TrimPrefix(outerCase(p, f, c.Pos()), "case ")
+				}
+				if got[label] == nil {
+					got[label] = map[string]token.Pos{}
+				}
+				got[label][name] = c.Pos()
+			}
+		}
+	}
+	var labels []string
+	for l := range got {
+		labels = append(labels, l)
+	}
+	sort.Strings(labels)
+	for _, l := range labels {
+		key := "compile/" + l + "/emits only the opcodes of its translation scheme"
+		want, known := specEmitSets[l]
+		if !known {
+			var ops []string
+			for o := range got[l] {
+				ops = append(ops, o)
+			}
+			sort.Strings(ops)
+			r.Undecided(key, "-", "a construct (or helper) the translation table does not list emits "+strings.Join(ops, ", "))
+			continue
+		}
+		allowed := map[string]bool{}
+		for _, o := range want {
+			allowed[o] = true
+		}
+		var extra []string
+		pos := token.NoPos
+		for o, ps := range got[l] {
+			if !allowed[o] {
+				extra = append(extra, o)
+				pos = ps
+			}
+		}
+		sort.Strings(extra)
+		if len(extra) > 0 {
+			r.Undecided(key, p.Pos(pos), "this construct is now translated with "+strings.Join(extra, ", ")+", which its translation scheme does not use: e.g. a switch arm tested with the membership opcode compares type and printed form only, so a regexp in a multi-expression arm never matches and all expressions are evaluated eagerly; a loop condition re-tested through ! disagrees with `if` for 0, \"\" and []. Whether the new encoding preserves the meaning for every type is not decided here")
+		} else {
+			r.OkNT(key, "-", fmt.Sprintf("%d opcode(s), all in the table", len(got[l])))
+		}
+	}
+}
+
+// ---------------------------------------------------------------------------
+// R-CUTSET
+
+func init() {
+	register(&Rule{ID: "R-CUTSET", Floor: 1, Run: ruleCutset,
+		Text: "strings.Trim, TrimLeft and TrimRight are only called with a constant cutset: their second argument is a set of characters, not a prefix or suffix, so a cutset computed from data (a separator, a flag prefix) also strips characters that belong to the text — the first letters of a regexp after its flags, the last characters of a joined string."})
+}
+
+const cutsetExample = `package t
+import "strings"
+func f(s, sep string) string { return strings.TrimRight(s, sep) }
+func g(s string) string { return strings.Trim(s, " \t") }
+`
+
+func cutsetSites(fn *ssa.Function) (bad []ssa.Instruction, all int) {
+	for _, b := range fn.Blocks {
+		for _, ins := range b.Instrs {
+			cc := callOf(ins)
+			if cc == nil || cc.StaticCallee() == nil {
+				continue
+			}
+			switch calleeFullName(cc) {
+			case "strings.Trim", "strings.TrimLeft", "strings.TrimRight", "bytes.Trim", "bytes.TrimLeft", "bytes.TrimRight":
+				all++
+				if _, isConst := cc.Args[1].(*ssa.Const); !isConst {
+					bad = append(bad, ins)
+				}
+			}
+		}
+	}
+	return
+}
+
+func ruleCutset(p *Program, r *Reporter) {
+	sp := buildExample(cutsetExample)
+	ok := false
+	if sp != nil && sp.Func("f") != nil && sp.Func("g") != nil {
+		bf, _ := cutsetSites(sp.Func("f"))
+		bg, ng := cutsetSites(sp.Func("g"))
+		ok = len(bf) == 1 && len(bg) == 0 && ng == 1
+	}
+	r.Check(ok, "matcher self-test: a computed cutset is found, a constant one accepted", "-", "built-in example behaves as expected", "the matcher no longer recognises its own example")
+	n := 0
+	for _, fn := range p.LibFns {
+		bad, all := cutsetSites(fn)
+		n += all
+		for _, ins := range bad {
+			r.Fail(siteKey(p, fn, ins.Pos(), "cutset of a Trim call is a constant"), p.Pos(ins.Pos()), "the cutset is computed at run time: every leading/trailing character that occurs anywhere in it is stripped, not the prefix/suffix it spells (use TrimPrefix / TrimSuffix): `/imitate/i` would match as `mitate`, join([\"a\", \"b-\"], \"-\") would lose its last character")
+		}
+	}
+	r.Info(fmt.Sprintf("%d Trim/TrimLeft/TrimRight call(s) in the library", n), "-", "")
 }
